@@ -468,6 +468,51 @@ Proof.
   destruct (Qle_bool _ _); apply P; assumption.
 Qed.
 
+
+(* ------------------------------------------------------------------ ground-truth centroids (F7) *)
+Theorem td_gt_fixed_within : forall c kps tl pts ms k x y px py a,
+  (0 < td_osi c)%Z -> 0 < td_si c -> 0 < tg_eff (td_geom c) ->
+  (0 < ncells (tg_nix (td_geom c)) (td_osi c))%Z -> (0 < ncells (tg_niy (td_geom c)) (td_osi c))%Z ->
+  td_gt_instance true c kps = Some (tl, pts, ms) ->
+  nth_error kps k = Some (Some (x, y)) ->
+  nth_error pts k = Some (Some (px, py), Some a) ->
+  in_band (aff_apply (tg_px (td_geom c)) x - fst tl) (td_osi c) (ncells (tg_nix (td_geom c)) (td_osi c)) ->
+  in_band (aff_apply (tg_py (td_geom c)) y - snd tl) (td_osi c) (ncells (tg_niy (td_geom c)) (td_osi c)) ->
+  Qabs (px - x) <= half_cell (td_osi c) (td_si c) (tg_eff (td_geom c))
+                   + reg_term (aff_apply (tg_px (td_geom c)) x) x (td_si c) (tg_eff (td_geom c)) /\
+  Qabs (py - y) <= half_cell (td_osi c) (td_si c) (tg_eff (td_geom c))
+                   + reg_term (aff_apply (tg_py (td_geom c)) y) y (td_si c) (tg_eff (td_geom c)).
+Proof.
+  intros c kps tl pts ms k x y px py a Hos Hs He Hnx Hny HI Hk Hp Bx By.
+  unfold td_gt_instance in HI. destruct (bbox_mid kps) as [[mx my]|]; [|discriminate].
+  unfold td_gt_geom in HI. inversion HI; subst; clear HI. cbn [fst snd] in *.
+  rewrite (map_nth_error (td_kp c (td_geom c) _ _) _ _ Hk) in Hp. inversion Hp as [Hp'].
+  eapply td_kp_within; eassumption.
+Qed.
+
+Definition wit_gt : td_cfg :=
+  {| td_H := 64; td_W := 64; td_mh := None; td_mw := None; td_sc := 1; td_si := 1 # 2;
+     td_msc := 16; td_msi := 16; td_osc := 2; td_osi := 2; td_ch := 32; td_cw := 32;
+     td_sigma := 3 # 2; td_lthr := - (1609438 # 1000000) |}.
+
+(* as pinned: the crop is cut from the un-resized image but decoded as if it were resized *)
+Theorem td_gt_refuted :
+  exists c kps tl pts ms x y px py a,
+    td_gt_instance false c kps = Some (tl, pts, ms) /\
+    nth_error kps 0 = Some (Some (x, y)) /\ nth_error pts 0 = Some (Some (px, py), Some a) /\
+    in_band (aff_apply (tg_px (td_gt_geom false c)) x - fst tl) (td_osi c)
+            (ncells (tg_nix (td_geom c)) (td_osi c)) /\
+    half_cell (td_osi c) (td_si c) (tg_eff (td_geom c)) == 2 /\
+    20 < Qabs (px - x).
+Proof.
+  exists wit_gt, [Some (30, 24); Some (36, 30)].
+  eexists. eexists. eexists. exists 30, 24. eexists. eexists. eexists.
+  split; [vm_compute; reflexivity|].
+  split; [reflexivity|]. split; [vm_compute; reflexivity|].
+  split; [split; vm_compute; discriminate|].
+  split; vm_compute; reflexivity.
+Qed.
+
 (* two-cell plateau: the strict local-maximum detector of the centroid stage reports no peak *)
 Lemma plateau_no_local_peak : forall c g cent,
   is_tie (aff_apply (fst (tg_cx g)) (fst cent)) (td_osc c) (ncells (snd (tg_cx g)) (td_osc c)) = true ->
